@@ -63,10 +63,13 @@ class SubWriterTask(Process):
     # them, and when it's done, puts a summary of its work on a results Queue
 
     def __init__(self, storage, indexname, jobqueue, resultqueue, kwargs,
-                 multisegment):
+                 multisegment, schema=None):
         Process.__init__(self)
         self.storage = storage
         self.indexname = indexname
+        # The parent writer's schema: it differs from the committed one when
+        # the parent added or removed fields before adding documents
+        self.schema = schema
         self.jobqueue = jobqueue
         self.resultqueue = resultqueue
         self.kwargs = kwargs
@@ -92,7 +95,7 @@ class SubWriterTask(Process):
         multisegment = self.multisegment
 
         # Open a placeholder object representing the index
-        ix = self.storage.open_index(self.indexname)
+        ix = self.storage.open_index(self.indexname, schema=self.schema)
         # Open a writer for the index. The _lk=False parameter means to not try
         # to lock the index (the parent object that started me takes care of
         # locking the index)
@@ -193,7 +196,7 @@ class MpWriter(SegmentWriter):
     def _new_task(self):
         task = SubWriterTask(self.storage, self.indexname,
                              self.jobqueue, self.resultqueue, self.subargs,
-                             self.multisegment)
+                             self.multisegment, schema=self.schema)
         self.tasks.append(task)
         task.start()
         return task
